@@ -252,7 +252,7 @@ CHECKS = {
         "text": "Theorems (Props/C13.v): (new_id_is_free) the repaired allocation loop never returns an ID in use while any of the 65,536 IDs is free, for "
                 "any counter value (wrap included) - by an induction over the loop plus a covering lemma for 65,536 successive counter values; "
                 "(ids_unique, id_addresses_holder) an invariant over histories of connects/disconnects of ANY length: every live connection is the "
-                "registry entry of its own ID, hence no two connected users share an ID and an ID resolves to its current holder; the pinned "
+                "registry entry of its own ID, hence no two connected users share an ID and an ID resolves to its current holder (and, holder_is_addressed_by_its_id, every connected user is what its own 16-bit ID resolves to); the pinned "
                 "allocation is refuted by a computed 65,537-connection history; (roster_converges) for every well-formed history of logins "
                 "(announced or not), announcements and departures, a client that fetched the list and folds the change/delete notifications ends "
                 "with exactly the server's list once nobody is between login and first announcement; (pm_*) private messages reach only the holder "
